@@ -3,6 +3,7 @@ package main
 import (
 	"fmt"
 	"go/ast"
+	"go/token"
 	"go/types"
 	"sort"
 	"strings"
@@ -368,11 +369,24 @@ func runNativeRetRep(c *Ctx) {
 	// type parameters of classes and mixins: `typeParam = NewTypeParameter(
 	// ToSymbol(X), namespace, lower, Any{}, ...)`; a name counts only when
 	// every declaration of a parameter with that name has upper bound Any
-	tpAny := map[string]bool{}
+	// the receiver variable of every DefineMethod call and, per receiver
+	// variable (`namespace := ...MustSubtypeString("X")`, one per class
+	// block), the class-level type parameters declared on it
+	recvOf := map[token.Pos]types.Object{}
+	tpAny := map[types.Object]map[string]bool{}
 	for _, f := range c.Pkg("types").Syntax {
 		ast.Inspect(f, func(n ast.Node) bool {
 			call, ok := n.(*ast.CallExpr)
-			if !ok || len(call.Args) < 4 {
+			if !ok {
+				return true
+			}
+			if sel, ok := call.Fun.(*ast.SelectorExpr); ok && sel.Sel.Name == "DefineMethod" {
+				if id, ok := ast.Unparen(sel.X).(*ast.Ident); ok {
+					recvOf[call.Pos()] = hinfo.Uses[id]
+				}
+				return true
+			}
+			if len(call.Args) < 4 {
 				return true
 			}
 			if fn := Callee(hinfo, call); fn == nil || fn.Name() != "NewTypeParameter" {
@@ -383,15 +397,20 @@ func runNativeRetRep(c *Ctx) {
 				return true
 			}
 			// parameters of methods live in a namespace made on the spot
-			if _, classLevel := ast.Unparen(call.Args[1]).(*ast.Ident); !classLevel {
+			id, classLevel := ast.Unparen(call.Args[1]).(*ast.Ident)
+			if !classLevel || hinfo.Uses[id] == nil {
 				return true
 			}
 			_, isAny := ast.Unparen(call.Args[3]).(*ast.CompositeLit)
 			isAny = isAny && NamedOf(hinfo.TypeOf(call.Args[3])) == "types.Any"
-			if prev, seen := tpAny[name]; seen {
-				tpAny[name] = prev && isAny
+			o := hinfo.Uses[id]
+			if tpAny[o] == nil {
+				tpAny[o] = map[string]bool{}
+			}
+			if prev, seen := tpAny[o][name]; seen {
+				tpAny[o][name] = prev && isAny
 			} else {
-				tpAny[name] = isAny
+				tpAny[o][name] = isAny
 			}
 			return true
 		})
@@ -409,7 +428,7 @@ func runNativeRetRep(c *Ctx) {
 			return "", false
 		}
 		short := strings.TrimPrefix(s, m.NS+"::")
-		if _, declared := h.Kind[s]; declared || strings.Contains(short, "::") || !tpAny[short] {
+		if _, declared := h.Kind[s]; declared || strings.Contains(short, "::") || recvOf[m.Pos] == nil || !tpAny[recvOf[m.Pos]][short] {
 			return "", false
 		}
 		if k := h.Kind[m.NS]; k != "class" && k != "mixin" {
@@ -497,8 +516,8 @@ func runNativeRetRep(c *Ctx) {
 	c.Stats["native_methods_with_an_undecidable_header_return_type"] = undecidedType
 	c.Stats["native_methods_decided"] = decided
 	c.Stats["native_methods_returning_a_bare_type_parameter"] = typeParamRets
-	if typeParamRets < 5 {
-		c.Bad("typeparam/floor", c.Pkg("types").Syntax[0].Pos(), "only %d native methods with a bare type parameter as header return type were recognised (at least 5 expected): the recognition of type parameters in types/headers.go no longer matches", typeParamRets)
+	if typeParamRets < 30 {
+		c.Bad("typeparam/floor", c.Pkg("types").Syntax[0].Pos(), "only %d native methods with a bare type parameter as header return type were recognised (at least 30 expected): the recognition of type parameters in types/headers.go no longer matches", typeParamRets)
 	}
 	_ = fmt.Sprint
 }
